@@ -77,6 +77,7 @@ type World struct {
 	Restarts     int
 	NewAddrCalls int
 	RemoveFailed bool // the last background removal run returned an error
+	ImportQueued bool // the worker holds an import task for wallet C
 	Relayed      []*wire.MsgTx
 	RelayedKind  []string
 	// HandlerErrs collects errors returned by the handler entry points (handle() only logs them).
